@@ -384,7 +384,8 @@ impl Directive {
             Directive::Macro => {
                 if let DirectiveOps::OpList(values) = &opts {
                     if let Some(Operand::E(Expr::Ident(name))) = values.first() {
-                        context.macros.name.replace(name.clone());
+                        // calls are looked up in lower case
+                        context.macros.name.replace(name.to_lowercase());
                         next_item = NextItem::EndMacro;
                     } else {
                         bail!("wrong format for .macro, expected: {} in {}", opts, point,);
